@@ -17,6 +17,7 @@ from rv import core, excelgen, monitors
 from rv.fingerprint import fp, diff
 
 LEVEL = 'fault_enumeration'
+LEVEL_TEXT = 'Fault enumeration: every assignment of {none} + 14 documented fault kinds to the rows of 1-2 (quick) / 1-3 (thorough) row tables, random larger tables, permutations, bead-row faults and empty tables on the real workflow; healthy rows compared bit for bit with single-row runs. Exhaustive over the assignments for the stated table sizes.'
 TECHNIQUE = 'fault enumeration over row-fault assignments + batch-vs-single-row history checker on the real Excel workflow'
 RULE = ('sample tables of 1..5 rows over generated FCS files x every assignment of {none, missing file, <400 events, '
         'fraction<0, fraction>1, unknown units, calibration failed / absent / no curve for channel, beads of another '
